@@ -159,6 +159,12 @@ struct SinkState {
 #[derive(Clone)]
 struct Sink(Rc<RefCell<SinkState>>);
 
+impl std::fmt::Debug for Sink {
+    fn fmt(&self, f: &mut std::fmt::Formatter) -> std::fmt::Result {
+        write!(f, "Sink({} bytes)", self.len())
+    }
+}
+
 impl Sink {
     fn parse(s: &str) -> Sink {
         let mut st = SinkState::default();
@@ -210,6 +216,26 @@ impl Write for Sink {
             }
             Some(Beh::Fail) => Err(io::Error::new(io::ErrorKind::Other, "sink write fault")),
         }
+    }
+    /// a sink with a native vectored write (pipes, sockets, files have one): the scripted behaviour applies to
+    /// the bytes of all slices together, so a short write can stop inside any slice
+    fn write_vectored(&mut self, bufs: &[io::IoSlice<'_>]) -> io::Result<usize> {
+        let mut s = self.0.borrow_mut();
+        s.writes += 1;
+        let total: usize = bufs.iter().map(|b| b.len()).sum();
+        let take = match s.script.pop_front() {
+            None | Some(Beh::All) => total,
+            Some(Beh::Upto(n)) => n.min(total),
+            Some(Beh::Fail) => return Err(io::Error::new(io::ErrorKind::Other, "sink write fault")),
+        };
+        let mut left = take;
+        for b in bufs {
+            let k = left.min(b.len());
+            s.out.extend_from_slice(&b[..k]);
+            left -= k;
+        }
+        s.last_flush = false;
+        Ok(take)
     }
     fn flush(&mut self) -> io::Result<()> {
         let mut s = self.0.borrow_mut();
@@ -437,12 +463,17 @@ impl<'a> BufRead for AnyReader<'a> {
 /// outer layer lazily): the decoders keep no state outside the call
 struct NestReader<'a> {
     inner: AnyReader<'a>,
-    armed: bool,
+    /// the nested use happens inside the `armed`-th call of `read`/`fill_buf` (0 = never)
+    armed: usize,
 }
 impl<'a> NestReader<'a> {
     fn trigger(&mut self) -> io::Result<()> {
-        if self.armed {
-            self.armed = false;
+        if self.armed > 0 {
+            self.armed -= 1;
+        } else {
+            return Ok(());
+        }
+        if self.armed == 0 {
             let to_io = |e: lzma_rs::error::Error| io::Error::new(io::ErrorKind::Other, format!("{:?}", e));
             let mut out = Vec::new();
             let mut a: &[u8] = &[0x01, 0x00, 0x02, b'a', b'b', b'c', 0x00];
@@ -579,7 +610,7 @@ fn run_oneshot(op: &str, f: &Fields) -> String {
     };
     let mut rd = NestReader {
         inner,
-        armed: get(f, "nest") == "1",
+        armed: get(f, "nest").parse().unwrap_or(0),
     };
     let opts = parse_options(f);
     let r = catch_unwind(AssertUnwindSafe(|| {
@@ -617,7 +648,22 @@ fn run_rawlzma(f: &Fields) -> String {
         lp: nat(f, "lp") as u32,
         pb: nat(f, "pb") as u32,
     };
-    let params = LzmaParams::new(props, nat(f, "dict") as u32, opt_nat(get(f, "us")));
+    // `hdr=<hex>`: the two-step construction read_header(&options) -> LzmaDecoder::new(params, ml)
+    let params = if f.contains_key("hdr") {
+        let hdr = unhex(get(f, "hdr"));
+        let opts = Options {
+            unpacked_size: parse_us(get(f, "hus")),
+            memlimit: opt_nat(get(f, "hml")).map(|x| x as usize),
+            allow_incomplete: get(f, "hai") == "1",
+        };
+        match catch_unwind(AssertUnwindSafe(|| LzmaParams::read_header(&mut &hdr[..], &opts))) {
+            Ok(Ok(p)) => p,
+            Ok(Err(_)) => return "new:err".to_string(),
+            Err(_) => return "new:panic".to_string(),
+        }
+    } else {
+        LzmaParams::new(props, nat(f, "dict") as u32, opt_nat(get(f, "us")))
+    };
     let ml = opt_nat(get(f, "ml")).map(|x| x as usize);
     let d = catch_unwind(AssertUnwindSafe(|| LzmaDecoder::new(params, ml)));
     let mut d = match d {
@@ -679,7 +725,11 @@ fn run_rawlzma(f: &Fields) -> String {
 }
 
 fn run_rawlzma2(f: &Fields) -> String {
-    let mut d = Lzma2Decoder::new();
+    let mut d = if get(f, "ctor") == "default" {
+        Lzma2Decoder::default()
+    } else {
+        Lzma2Decoder::new()
+    };
     let mut outs = vec!["new:ok".to_string()];
     let mut dirty = false;
     for op in get(f, "ops").split(';') {
@@ -813,6 +863,15 @@ fn run_stream(f: &Fields) -> String {
                     None => outs.push("st:none".to_string()),
                     Some(b) => outs.push(format!("st:{}:{:08x}", b.len(), crc32(&b))),
                 }
+            }
+            ["dbg"] => {
+                // the Debug impl (logging a stream is an ordinary thing to do, also after a failure)
+                let s = match st.as_ref() {
+                    Some(s) => s,
+                    None => break,
+                };
+                let r = catch_unwind(AssertUnwindSafe(|| format!("{:?}", s).len()));
+                outs.push(if r.is_ok() { "dbgok".to_string() } else { "dbgpanic".to_string() });
             }
             ["go"] => {
                 // Stream::get_output / get_output_mut: the sink is reachable unless the stream has failed
@@ -1012,6 +1071,19 @@ fn run_crc(f: &Fields) -> String {
 }
 
 fn dispatch(op: &str, f: &Fields) -> String {
+    // `stk=<bytes>`: run the case on a thread with that much stack (stack use must not depend on the input)
+    if let Ok(n) = get(f, "stk").parse::<usize>() {
+        let mut f2 = f.clone();
+        f2.remove("stk");
+        let op2 = op.to_string();
+        let h = std::thread::Builder::new()
+            .stack_size(n)
+            .spawn(move || dispatch(&op2, &f2));
+        return match h {
+            Ok(h) => h.join().unwrap_or_else(|_| "panic".to_string()),
+            Err(_) => "bad-op".to_string(),
+        };
+    }
     match op {
         "lzma" | "lzma2" | "xz" => run_oneshot(op, f),
         "rawlzma" => run_rawlzma(f),
